@@ -32,6 +32,9 @@ type C03Case struct {
 	Prior string `json:"prior,omitempty"`
 	// Changelog: "" | small | big - a changelog is configured (deb ships it gzipped in the payload, rpm in header tags)
 	Changelog string `json:"changelog,omitempty"`
+	// SDE: SOURCE_DATE_EPOCH is set in the process environment while the configuration states its own mtime (the
+	// times a package states about its members still agree with the members)
+	SDE string `json:"source_date_epoch,omitempty"`
 }
 
 var c03Items = []string{"f5000", "f0", "dir", "symlink", "f1", "f1023", "f1024", "config", "ghost", "big", "mut", "disklink", "links-tree", "links-glob"}
@@ -242,6 +245,16 @@ func init() {
 					}
 				}
 			}
+			// SOURCE_DATE_EPOCH in the environment next to a configured mtime, and alone
+			for _, s := range []Setting{sets[0], {Name: "mtime=unset", MTime: "unset"}} {
+				for _, sde := range []string{"1500000000", "0"} {
+					for _, sh := range [][]string{{"f5000", "dir", "symlink"}, {"config", "f1"}, nil} {
+						if !yield(C03Case{Shape: sh, Setting: s, SDE: sde}) {
+							return
+						}
+					}
+				}
+			}
 			// names that are not plain text (the digest lists and size sums name and count every file); two names of one
 			// file on the build host (two files in the package)
 			for _, s := range sets {
@@ -342,6 +355,17 @@ func checkC03(env *engine.Env, ci any) engine.Outcome {
 		doc["changelog"] = t.P("changelog-big.yaml")
 	}
 	text := doc.YAML()
+	if c.SDE != "" {
+		old, had := os.LookupEnv("SOURCE_DATE_EPOCH")
+		os.Setenv("SOURCE_DATE_EPOCH", c.SDE)
+		defer func() {
+			if had {
+				os.Setenv("SOURCE_DATE_EPOCH", old)
+			} else {
+				os.Unsetenv("SOURCE_DATE_EPOCH")
+			}
+		}()
+	}
 	formats := Formats
 	if c.Setting.Only != "" {
 		formats = []string{c.Setting.Only}
